@@ -49,7 +49,7 @@ def run(ck):
     ck.clause("C02.10", "every record's header comes from AlignmentResultRow.create - first/last listed pair, strand-aware - never from "
                         "a raw constructor call with start/end copied from somewhere else (as C04.2)")
     from . import c04 as _c04
-    _c04.ownership(RuleView(ck, {"C04.2": "C02.10"}))
+    _c04.ownership(RuleView(ck, {"C04.2": "C02.10"}, only_constructs=("raw-AlignmentResultRow",)))
     ck.clause("C02.9", "RefContigID names the map of every listed label: records are joined only on the same reference and strand "
                        "(as C08.4)")
     c08._eligibility(ck, {}, None, rule="C02.9", wiring=False)
@@ -176,6 +176,8 @@ def column_table(ck, w, r, rule):
         ra = r.column_attr[col]
         n_corr += 1
         construct = f"column:{col}"
+        if col == "Orientation" and orientation_column(ck, rule, w, where_frame):
+            continue
         if len(wa) != 1:
             v = w.record_values[col]
             indirect = [x for x in T.subterms(v) if x[0] == "idx" or (x[0] == "mcall" and x[2] in ("get", "__getitem__"))]
@@ -210,6 +212,24 @@ def column_table(ck, w, r, rule):
             ck.judge(fam is None, rule, f"reader-binding:{pname}", r.row_parser.where,
                      f"column {c} is bound to parameter {pname} of the same role",
                      found=f"{c} -> {pname} conflict in {fam}" if fam else None)
+
+
+def orientation_column(ck, rule, w, where_frame=None) -> bool:
+    """The Orientation column is the record's strand flag. Derived from the coordinates instead (QryStartPos > QryEndPos) it is wrong
+    for a reverse-strand record with one aligned pair, whose query start and end coincide. Returns True when it reported."""
+    v = w.record_values.get("Orientation")
+    if v is None:
+        return False
+    wa = row_attrs(v)
+    coords = {"queryStartPosition", "queryEndPosition", "referenceStartPosition", "referenceEndPosition"}
+    if wa and set(wa) <= coords:
+        ck.violation(rule, "column:Orientation", where_frame or where(w.fn, w.frame_node),
+                     f"Orientation is worked out from the coordinates ({', '.join(wa)}) instead of the record's strand: a reverse-strand "
+                     "record with a single aligned pair has QryStartPos == QryEndPos and is written '+', while its label numbering and "
+                     "its mirror image say '-'", found=T.show(w.record_values_inl.get("Orientation", v))[:200],
+                     required="row.orientation ('-' if reverseStrand else '+')")
+        return True
+    return False
 
 
 def _format_spec(v):
@@ -274,7 +294,9 @@ def entry_id(ck, w, rule):
 
 
 # ---------------------------------------------------------------------------------------------------------- C02.3
-def header_derivation(ck, rule):
+def header_derivation(ck, rule, exact=False):
+    """exact=False: a header coordinate rounded to at least one decimal is the coordinate as far as the XMAP file (written with
+    one decimal) is concerned; exact=True (C07.G9): the stored value must be the label coordinate itself"""
     ctx = ck.ctx
     fn = ctx.p.find_method("AlignmentResultRow", "create")
     paths = [p for p in explore(ck, fn) if p.outcome == "return"]
@@ -321,6 +343,9 @@ def header_derivation(ck, rule):
             }
             for k, wv in want.items():
                 got = T.specialize(args[k], facts)
+                if not exact and got[0] == "call" and got[1] == "round" and len(got[2]) == 2 and got[2][1][0] == "c" \
+                        and isinstance(got[2][1][1], int) and got[2][1][1] >= 1:
+                    got = got[2][0]
                 strand = "reverse" if rev else "forward"
                 construct = f"AlignmentResultRow.create:{k}:{strand}"
                 if got == wv:
